@@ -249,7 +249,8 @@ def _quadratic(ctx, mdl):
             d = to_rat(v['deriv'])
             speed2_ok = decide_equal(d, (2 * (P[1] - P[0])) + 2 * (P[0] - 2 * P[1] + P[2]) * TAU)
         s = v['s']
-        if v['deg'] == frozenset('-'):
+        if v['deg'] == frozenset('-') or (not {'c2', 'c1', 'c0'} <= set(v['tags']) and s.equals(absB * (T1 - T0))):
+            # the shortcut for a (nearly) vanishing second difference; WHICH smallness test guards it is a numeric choice (not decided)
             seen['deg'] = decide_equal(s, absB * (T1 - T0))
             continue
         if not {'c2', 'c1', 'c0'} <= set(v['tags']):
